@@ -8,7 +8,7 @@ from ..engines import seqgen as G
 ID = "C06"
 ENGINE = "seqsim"
 LEVEL = "exploration"
-RUNS = {"quick": 24000, "thorough": 400000}
+RUNS = {"quick": 80000, "thorough": 400000}
 CHUNK = 250
 RULE = ("seeded histories over k=2-3 objects bound to ONE file (plus 0-1 other file) under a COMMON buffered state only: "
         "one backend-wide context, or per-object contexts entered back-to-back and exited back-to-back in a generated "
